@@ -349,7 +349,8 @@ class TFLiteSemantic:
         "Input(s), Output and Weight tensors must have quantization parameters"
         valid = True
         extra = []
-        tensors = [tens for tens in op.get_ifm_ifm2_weights_ofm() if tens]
+        # operators with several outputs (SPLIT, SPLIT_V, UNPACK): every output counts
+        tensors = [tens for tens in list(op.get_ifm_ifm2_weights_ofm()) + op.outputs[1:] if tens]
         for tens in tensors:
             # a scale without a zero point (or vice versa) is an incomplete set of quantization parameters
             if tens.quantization is None or (tens.quantization.scale_f32 is None) != (tens.quantization.zero_point is None):
@@ -363,7 +364,7 @@ class TFLiteSemantic:
         "Input(s), Output and Weight tensors with quantization scales must be finite"
         valid = True
         extra = []
-        tensors = [tens for tens in op.get_ifm_ifm2_weights_ofm() if tens]
+        tensors = [tens for tens in list(op.get_ifm_ifm2_weights_ofm()) + op.outputs[1:] if tens]
         for tens in tensors:
             if (
                 tens.quantization
